@@ -1,0 +1,5 @@
+//go:build !verif
+
+package engine
+
+func verifStep(s *SearchEngineState) {}
